@@ -22,7 +22,7 @@ RUN_MODULE = "Run.EngineRun"
 VERDICT_FN = "(fun cs => fold_left (fun acc c => if Nat.eqb acc 0 then verdict_C17_any c else acc) cs 0)"
 CHUNK = 80
 DRIVER_ERR = {"base": eng.DRIVER_ERR, "bad": ["driver"], "styles": 0}
-K = dict(cbs=0.45, conv=0.25, guards=0.5, validators=0.25, sends=0.08, raises=0.02, multi_event=0.45, multi_cand=0.6,
+K = dict(callable_refs=0.3, bound_refs=0.6, cbs=0.45, conv=0.25, guards=0.5, validators=0.25, sends=0.08, raises=0.02, multi_event=0.45, multi_cand=0.6,
          self_loop=0.3, internal=0.4, final=0.25, p_async=0.0, rtc_false=0.1, ops=(3, 10), falsy_machine=0.0,
          p_values=0.0, styles=("str",), start=0.0, resume=0.0, p_construct=0.0, p_write=0.0)
 
@@ -80,11 +80,18 @@ def variants(sc, rng, limit):
                            # allowed_events order is an observation): keep this style to single-event machines
         if ev in ("assign", "event_ctor") and any(t["ev"] != sorted(t["ev"]) for t in sc["trans"]):
             continue
+        if ev == "assign" and rng.random() < 0.5:
+            v["ior"] = True
         if ev == "assign" and rng.random() < 0.7:      # callbacks / an event declared with decorators
             v["decor"] = make_decor(sc, rng)
         if ev == "event_ctor" and sc.get("decor_evobj") and rng.random() < 0.8:
             v["decor"] = {"cbs": [], "event": None, "evobj": sc["decor_evobj"]}
         vs.append(v)
+    # a machine with final states always gets one rendering whose states come from an IntEnum (the final one, or
+    # the first of them, being the member with value 0)
+    if simple_states and sc["finals"] and not any(v_.get("enum_kind") == "int0" for v_ in vs):
+        vs.append(dict(sc, evstyle=rng.choice(["str", "list"]), tstyle=rng.choice(["to", "from"]), itself=False,
+                       sstyle="enum", enum_kind="int0", inherit=False, mixed=None, decor=None))
     # the class body written state by state (all transitions leaving one state, then those leaving the next,
     # in a random order of the states) instead of in the abstract machine's order: another global creation
     # order, the same ordered list per source state (Proofs/DeclBehaviour.v: statement_order_across_states_
@@ -105,7 +112,8 @@ def make_decor(sc, rng):
     method of the class), and whether the event prepared by inject_decor_event is declared by
     `@(tr1 | tr2) def event(self)`"""
     others = [tuple(nm) for prov in sc["provs"][1:] for nm in prov]
-    sole = {tuple(nm) for nm in sc["provs"][0] if nm[0] == 0 and nm[1] < 500 and tuple(nm) not in others}
+    given_as_objects = {tuple(nm) for nm in sc.get("callable_names", [])}
+    sole = {tuple(nm) for nm in sc["provs"][0] if nm[0] == 0 and nm[1] < 500 and tuple(nm) not in others} - given_as_objects
     dev = sc.get("decor_event") if rng.random() < 0.8 else None
     cbs = []
     for j, t in enumerate(sc["trans"]):
@@ -225,8 +233,11 @@ def render_split(sc, k):
     first_def = next((i for i, ln in enumerate(lines) if ln.lstrip().startswith(("def ", "async def "))), len(lines))
     decl, meths = lines[:first_def], lines[first_def:]
 
+    objs = {tuple(nm) for nm in sc.get("callable_names", [])}
+    pre_ = "EXT." if sc.get("bound_refs") else ""
+
     def nl(l):
-        return "[" + ", ".join(repr(eng.cbname(nm)) for nm in l) + "]"
+        return "[" + ", ".join((pre_ + "fn_" + eng.cbname(nm)) if tuple(nm) in objs else repr(eng.cbname(nm)) for nm in l) + "]"
     extra = []
     for t in sc["trans"][k:]:
         kw = ["event=" + repr(" ".join(eng.evname(e) for e in t["ev"]))]
@@ -354,7 +365,7 @@ def generate(rng, tier):
         if rng.random() < 0.5:
             inject_decor_evobj(sc, rng)
         sc["split"] = not sc.get("any") and not sc.get("values") and rng.random() < 0.5
-        sc["variants"] = [{k: v[k] for k in ("evstyle", "tstyle", "itself", "sstyle", "inherit", "mixed", "decor", "enum_kind", "events_first") + (("trans", "regrouped") if v.get("regrouped") else ()) if k in v}
+        sc["variants"] = [{k: v[k] for k in ("evstyle", "tstyle", "itself", "sstyle", "inherit", "mixed", "decor", "enum_kind", "events_first", "ior") + (("trans", "regrouped") if v.get("regrouped") else ()) if k in v}
                           for v in variants(sc, rng, 10 if tier == "quick" else 24)]
         scs.append(sc)
     return scs, [("abstract machines, each rendered as baseline (event=\"a b\", a.to(b), State attributes) and in up to "
